@@ -20,6 +20,7 @@ import (
 	"os"
 	"path/filepath"
 
+	"github.com/mitchellh/copystructure"
 	"github.com/pkg/errors"
 
 	chartutil "helm.sh/helm/v4/pkg/chart/v2/util"
@@ -63,7 +64,15 @@ func validateValuesFile(valuesPath string, overrides map[string]interface{}) err
 	// We could change that. For now, though, we retain that strategy, and thus can
 	// coalesce tables (like reuse-values does) instead of doing the full chart
 	// CoalesceValues
-	coalescedValues := chartutil.CoalesceTables(make(map[string]interface{}, len(overrides)), overrides)
+	// CoalesceTables merges into the tables of its first argument in place,
+	// nested ones included; the overrides belong to the caller (the templates
+	// rule is run with them next), so they are copied first.
+	copied, err := copystructure.Copy(overrides)
+	if err != nil {
+		return errors.Wrap(err, "unable to copy the values")
+	}
+	overridesCopy, _ := copied.(map[string]interface{})
+	coalescedValues := chartutil.CoalesceTables(make(map[string]interface{}, len(overridesCopy)), overridesCopy)
 	coalescedValues = chartutil.CoalesceTables(coalescedValues, values)
 
 	ext := filepath.Ext(valuesPath)
